@@ -28,8 +28,13 @@ import (
 	"sync"
 	"sync/atomic"
 
+	"github.com/btcsuite/btcd/btcec/v2"
+	sphinx "github.com/lightningnetwork/lightning-onion"
+	"github.com/lightningnetwork/lnd/channeldb"
 	"github.com/lightningnetwork/lnd/chanstate"
 	"github.com/lightningnetwork/lnd/htlcswitch"
+	"github.com/lightningnetwork/lnd/htlcswitch/hop"
+	"github.com/lightningnetwork/lnd/keychain"
 	"github.com/lightningnetwork/lnd/kvdb"
 	"github.com/lightningnetwork/lnd/lnwire"
 	"github.com/lightningnetwork/lnd/verifmc/crashdb"
@@ -47,19 +52,63 @@ const (
 
 // universe is the finite set of keys the operations range over.
 type universe struct {
-	InChans  []uint64 // scids of incoming channels
+	// InChans: scids of incoming channels. The scid 0 is hop.Source: circuits
+	// "incoming" on it are locally initiated payments (the HTLC id is the payment
+	// attempt id, see localIDBase); hop.Source is not a channel: it is never listed
+	// by the channel store, never closed, and always "live".
+	InChans  []uint64
 	InIDs    int      // HTLC ids 0..InIDs-1 on every incoming channel
 	OutChans []uint64 // scids of outgoing channels ('a', 'b')
 	MaxID    int      // outgoing HTLC ids 0..MaxID-1 can be allocated
+	// Enc: kind of error encrypter carried by the circuit with incoming index i
+	// (encNone..encMock); missing entries = encNone. Locally initiated circuits never
+	// carry one.
+	Enc []int `json:",omitempty"`
+	// Scidless: the channel store additionally holds records WITHOUT a short
+	// channel id: an open channel that is still pending, an open channel whose scid
+	// was never assigned, and (after the op "closezero") a fully closed channel
+	// whose close summary has the all-zero scid (a channel that was closed before it
+	// confirmed). None of them ever carried an HTLC.
+	Scidless bool `json:",omitempty"`
 }
+
+// scid builds a realistic short channel id (distinct non-zero block / tx / output).
+func scid(block, tx, pos uint64) uint64 { return block<<40 | tx<<16 | pos }
+
+// localIDBase: payment attempt ids of locally initiated payments (above 2^32 so
+// that no code path can confuse them with small HTLC indexes).
+const localIDBase = uint64(1)<<32 | 5
+
+const (
+	encNone = iota
+	encSphinx
+	encIntro
+	encRelay
+	encMock
+)
+
+var encNames = []string{"none", "sphinx", "introduction", "relaying", "mock"}
 
 func (u *universe) nIn() int { return len(u.InChans) * u.InIDs }
 
 func (u *universe) inKey(i int) htlcswitch.CircuitKey {
-	return htlcswitch.CircuitKey{
+	k := htlcswitch.CircuitKey{
 		ChanID: lnwire.NewShortChanIDFromInt(u.InChans[i/u.InIDs]),
 		HtlcID: uint64(i % u.InIDs),
 	}
+	if u.InChans[i/u.InIDs] == 0 {
+		k.HtlcID += localIDBase
+	}
+	return k
+}
+
+func (u *universe) isLocal(i int) bool { return u.InChans[i/u.InIDs] == 0 }
+
+func (u *universe) encKind(i int) int {
+	if i < len(u.Enc) && !u.isLocal(i) {
+		return u.Enc[i]
+	}
+	return encNone
 }
 
 func (u *universe) inChan(i int) uint64 { return u.InChans[i/u.InIDs] }
@@ -97,8 +146,17 @@ func (u *universe) outIndex(k htlcswitch.CircuitKey) (okey, bool) {
 	return okey{}, false
 }
 
+// allChans: every channel of the universe once (hop.Source is not a channel).
 func (u *universe) allChans() []uint64 {
-	return append(append([]uint64{}, u.InChans...), u.OutChans...)
+	var out []uint64
+	seen := map[uint64]bool{0: true}
+	for _, c := range append(append([]uint64{}, u.InChans...), u.OutChans...) {
+		if !seen[c] {
+			seen[c] = true
+			out = append(out, c)
+		}
+	}
+	return out
 }
 
 // payHash: circuits 0 and 1 share a payment hash (two shards of one payment), the
@@ -110,13 +168,153 @@ func payHash(i int) [32]byte {
 	return sha256.Sum256([]byte("c07 payment " + strconv.Itoa(i)))
 }
 
+// newCircuit builds the circuit a link (or, for hop.Source, the payment
+// dispatcher) hands to CommitCircuits: every field is a distinct non-zero function of
+// the incoming index. A forwarded circuit carries the forwarding-package reference
+// of its Add and the error encrypter of its kind; a locally initiated one neither.
 func (u *universe) newCircuit(i int) *htlcswitch.PaymentCircuit {
-	return &htlcswitch.PaymentCircuit{
+	c := &htlcswitch.PaymentCircuit{
 		Incoming:       u.inKey(i),
 		PaymentHash:    payHash(i),
 		IncomingAmount: lnwire.MilliSatoshi(100_000 + i),
 		OutgoingAmount: lnwire.MilliSatoshi(99_000 + i),
 	}
+	if !u.isLocal(i) {
+		c.AddRef = channeldb.AddRef{Height: uint64(1000 + i), Index: uint16(i + 1)}
+		c.ErrorEncrypter = newEncrypter(u.encKind(i), i)
+	}
+	return c
+}
+
+// ---------------------------------------------------------------------------
+// circuit payload (error encrypters)
+
+// onion is the node's onion processor: the REAL hop.OnionProcessor over a sphinx
+// router with a fixed key; its ExtractErrorEncrypter is what NewCircuitMap gets.
+var (
+	onionOnce sync.Once
+	onionProc *hop.OnionProcessor
+	encCache  sync.Map // ephemeral index -> *hop.SphinxErrorEncrypter (extracted once)
+	payCache  sync.Map // payloadKey -> *payloadWant
+)
+
+func fixedPriv(tag string, i int) *btcec.PrivateKey {
+	h := sha256.Sum256([]byte("c07 " + tag + " " + strconv.Itoa(i)))
+	k, _ := btcec.PrivKeyFromBytes(h[:])
+	return k
+}
+
+func onionProcessor() *hop.OnionProcessor {
+	onionOnce.Do(func() {
+		router := sphinx.NewRouter(&keychain.PrivKeyECDH{PrivKey: fixedPriv("router", 0)}, sphinx.NewMemoryReplayLog())
+		onionProc = hop.NewOnionProcessor(router)
+	})
+	return onionProc
+}
+
+// sphinxFor returns a fresh SphinxErrorEncrypter value for ephemeral key #i (the
+// shared-secret part is extracted once and shared: it is immutable).
+func sphinxFor(i int) *hop.SphinxErrorEncrypter {
+	v, ok := encCache.Load(i)
+	if !ok {
+		e, code := onionProcessor().ExtractErrorEncrypter(fixedPriv("ephemeral", i).PubKey())
+		if code != lnwire.CodeNone {
+			panic(fmt.Sprintf("c07: cannot extract error encrypter: %v", code))
+		}
+		v, _ = encCache.LoadOrStore(i, e.(*hop.SphinxErrorEncrypter))
+	}
+	base := v.(*hop.SphinxErrorEncrypter)
+	return &hop.SphinxErrorEncrypter{OnionErrorEncrypter: base.OnionErrorEncrypter, EphemeralKey: base.EphemeralKey}
+}
+
+// newEncrypter builds the encrypter the incoming link would attach (hop/iterator.go
+// wraps the sphinx encrypter for the introduction / relaying node of a blinded route).
+func newEncrypter(kind, i int) hop.ErrorEncrypter {
+	switch kind {
+	case encSphinx:
+		return sphinxFor(i)
+	case encIntro:
+		return &hop.IntroductionErrorEncrypter{ErrorEncrypter: sphinxFor(i)}
+	case encRelay:
+		return &hop.RelayingErrorEncrypter{ErrorEncrypter: sphinxFor(i)}
+	case encMock:
+		return htlcswitch.NewMockObfuscator()
+	}
+	return nil
+}
+
+var probeReason = lnwire.OpaqueReason(bytes.Repeat([]byte{0x5a, 0xc3}, 40))
+
+// payloadWant: what a circuit with incoming index i must look like wherever the map
+// shows it (in memory, fresh or restored, and on disk): its serialisation and what
+// its error encrypter answers to a fixed probe.
+type payloadWant struct {
+	enc   []byte
+	probe []byte
+}
+
+func probeEncrypter(e hop.ErrorEncrypter) (out []byte, err error) {
+	defer func() {
+		if v := recover(); v != nil {
+			err = fmt.Errorf("encrypter unusable: %v", v)
+		}
+	}()
+	if e == nil {
+		return nil, nil
+	}
+	return e.IntermediateEncrypt(append(lnwire.OpaqueReason{}, probeReason...)), nil
+}
+
+func (u *universe) payload(i int) *payloadWant {
+	key := fmt.Sprintf("%v/%d/%d", u.inKey(i), i, u.encKind(i))
+	if v, ok := payCache.Load(key); ok {
+		return v.(*payloadWant)
+	}
+	c := u.newCircuit(i)
+	var b bytes.Buffer
+	if err := c.Encode(&b); err != nil {
+		panic(fmt.Sprintf("c07: encode reference circuit: %v", err))
+	}
+	pr, err := probeEncrypter(c.ErrorEncrypter)
+	if err != nil {
+		panic(fmt.Sprintf("c07: reference circuit: %v", err))
+	}
+	w := &payloadWant{enc: b.Bytes(), probe: pr}
+	payCache.Store(key, w)
+	return w
+}
+
+// payloadDefect compares a circuit shown by the map with the circuit that was
+// committed under that incoming key ("" = identical): same serialisation (add
+// reference, incoming key, hash, amounts, encrypter kind and ephemeral key) and an
+// error encrypter that works and derives the same shared secret.
+func (u *universe) payloadDefect(i int, c *htlcswitch.PaymentCircuit) (defect string) {
+	defer func() {
+		if v := recover(); v != nil {
+			defect = fmt.Sprintf("payload unusable: %v", v)
+		}
+	}()
+	want := u.payload(i)
+	var b bytes.Buffer
+	if err := c.Encode(&b); err != nil {
+		return "cannot be serialised: " + err.Error()
+	}
+	if !bytes.Equal(b.Bytes(), want.enc) {
+		kind := "none"
+		if c.ErrorEncrypter != nil {
+			kind = fmt.Sprintf("type %d", c.ErrorEncrypter.Type())
+		}
+		return fmt.Sprintf("payload differs from the committed circuit (addref %v amounts %d/%d encrypter %s, committed encrypter %s)",
+			c.AddRef, c.IncomingAmount, c.OutgoingAmount, kind, encNames[u.encKind(i)])
+	}
+	got, err := probeEncrypter(c.ErrorEncrypter)
+	if err != nil {
+		return err.Error()
+	}
+	if !bytes.Equal(got, want.probe) {
+		return "error encrypter derives a different shared secret"
+	}
+	return ""
 }
 
 // ---------------------------------------------------------------------------
@@ -208,6 +406,10 @@ func parseOp(s string) (op, error) {
 			return o, fmt.Errorf("bad op %q", s)
 		}
 		o.out, err = pOut(args[0])
+	case "closezero":
+		if len(args) != 0 {
+			return o, fmt.Errorf("bad op %q", s)
+		}
 	case "restart":
 		for _, a := range args {
 			if strings.HasPrefix(a, "crash=") {
@@ -259,6 +461,9 @@ type env struct {
 	chanState map[uint64]int
 	next, cmt []int
 	res       map[okey]bool
+	// zeroClosed: the close summary of a channel that never got a short channel id
+	// (all-zero scid, fully closed) is in the channel store (universe.Scidless only).
+	zeroClosed bool
 }
 
 func newEnv(u *universe) *env {
@@ -340,6 +545,9 @@ func (e *env) str(u *universe) string {
 		b.WriteString(k.String() + " ")
 	}
 	b.WriteString("]")
+	if e.zeroClosed {
+		b.WriteString(" zeroclosed")
+	}
 	return b.String()
 }
 
@@ -472,8 +680,12 @@ func (m *model) trim(ch, start int) {
 // restart: memory is rebuilt from exactly the durable records; circuits of fully
 // closed channels are purged unless a resolution message awaits delivery;
 // keystones that did not reach a commitment of a live channel are rolled back.
+//
+// A locally initiated circuit has no incoming channel (hop.Source is never closed);
+// channel records without a short channel id (env.zeroClosed, universe.Scidless)
+// never carried an HTLC, so no circuit is "of" such a channel: they change nothing.
 func (m *model) restart(u *universe, e *env) {
-	closedIn := func(in int) bool { return e.chanState[u.inChan(in)] == stClosed }
+	closedIn := func(in int) bool { return !u.isLocal(in) && e.chanState[u.inChan(in)] == stClosed }
 	for _, in := range sortedInts(m.dAdds) {
 		if closedIn(in) {
 			delete(m.dAdds, in)
@@ -704,10 +916,22 @@ func (s *sys) cfg() *htlcswitch.CircuitMapConfig {
 				}
 				out = append(out, c)
 			}
+			if u.Scidless {
+				// a channel whose funding is still unconfirmed (listed first), and one
+				// that is open but was never assigned its final id (listed second):
+				// both have the all-zero scid
+				out = append([]*chanstate.OpenChannel{
+					{IsPending: true, Db: st},
+					{Db: st},
+				}, out...)
+			}
 			return out, nil
 		},
 		FetchClosedChannels: func(pendingOnly bool) ([]*chanstate.ChannelCloseSummary, error) {
 			var out []*chanstate.ChannelCloseSummary
+			if e.zeroClosed && !pendingOnly {
+				out = append(out, &chanstate.ChannelCloseSummary{})
+			}
 			for _, scid := range u.allChans() {
 				st := e.chanState[scid]
 				if st == stLive || (pendingOnly && st != stPClose) {
@@ -720,6 +944,7 @@ func (s *sys) cfg() *htlcswitch.CircuitMapConfig {
 			}
 			return out, nil
 		},
+		ExtractErrorEncrypter: onionProcessor().ExtractErrorEncrypter,
 		CheckResolutionMsg: func(k *htlcswitch.CircuitKey) error {
 			if o, ok := u.outIndex(*k); ok && e.res[o] {
 				return nil
@@ -791,6 +1016,8 @@ func (s *sys) observe() observed {
 		}
 		if c.Incoming != u.inKey(i) {
 			out += "!incoming=" + c.Incoming.String()
+		} else if d := u.payloadDefect(i, c); d != "" {
+			out += "!(" + d + ")"
 		}
 		fmt.Fprintf(&b, "%d:%s%s ", i, fl, out)
 	}
@@ -872,6 +1099,10 @@ func (s *sys) observe() observed {
 					addExtra = append(addExtra, ck.String())
 					return nil
 				}
+				if !bytes.Equal(v, u.payload(i).enc) {
+					addExtra = append(addExtra, ck.String()+"(record differs from the committed circuit)")
+					return nil
+				}
 				adds = append(adds, i)
 				return nil
 			}); err != nil {
@@ -924,7 +1155,8 @@ func (s *sys) observe() observed {
 // violation reporting -------------------------------------------------------
 
 type replayDoc struct {
-	Kind     string   `json:"kind"` // "seq"
+	Kind     string   `json:"kind"`            // "seq"
+	Phase    string   `json:"phase,omitempty"` // reporting phase ("seq", "lat"); default seq
 	Universe universe `json:"universe"`
 	Ops      []string `json:"ops"`
 }
@@ -953,7 +1185,7 @@ func (s *sys) violate(clause, opKind, what string) {
 	if s.logf != nil {
 		s.logf("INFO   !! %s: %s", sig, what)
 	}
-	s.rep.run.Violation(sig, full, replayDoc{Kind: "seq", Universe: *s.u, Ops: ops})
+	s.rep.run.Violation(sig, full, replayDoc{Kind: "seq", Phase: s.rep.phase, Universe: *s.u, Ops: ops})
 	s.rep.stop.Store(true)
 }
 
